@@ -57,16 +57,16 @@ impl Gen {
             self.evs.insert(ev, EvMeta { kind: "prop", author: m, epoch_hint: self.client_epoch[m] });
             return format!("PR LEAVE {m} {ev} {}", self.ts());
         }
-        if k < 27 && self.adv < 2 && self.admin_mask & (1 << m) == 0 && w.pending_of(m).is_none() && self.r.chance(1, 3) {
+        if k < 29 && self.adv < 3 && self.admin_mask & (1 << m) == 0 && w.pending_of(m).is_none() && self.r.chance(2, 3) {
             // a non-admin builds a member-removing commit directly with the MLS library
             let victim = (m + 1 + self.r.below(self.n as u64 - 1) as usize) % self.n;
             let ev = self.next_ev; self.next_ev += 1; self.adv += 1;
             self.evs.insert(ev, EvMeta { kind: "commit", author: m, epoch_hint: self.client_epoch[m] });
-            let akind = if self.twin && victim >= 2 { "ga" } else { *self.r.pick(&["rm", "rm", "ga", "gn"]) };
+            let akind = if self.twin && victim >= 2 { *self.r.pick(&["ga", "ic"]) } else { *self.r.pick(&["rm", "rm", "ga", "gn", "ic", "ic"]) };
             return format!("PR ADV {m} {akind} {victim} {ev} {}", self.ts());
         }
         if w.reopen.is_some() && k >= 96 { return format!("PR RESTART {m}"); }
-        if k < 28 {
+        if k < 30 {
             let ev = self.next_ev; self.next_ev += 1;
             self.evs.insert(ev, EvMeta { kind: "bad", author: 99, epoch_hint: 0 });
             return format!("PR BAD {ev} {} {}", self.ts(), self.r.below(5));
@@ -106,6 +106,7 @@ struct Truth {
     beyond_retention: bool,               // some commit was first offered to a client more than `retention` epochs late
     merges: Vec<(usize, u64)>,
     late: BTreeSet<(usize, u64)>,
+    too_late: BTreeSet<(usize, u64)>,
     offered: Vec<BTreeSet<u64>>,           // events already offered to each client
     rollback_then_refused: bool,
     stale_proposal: bool,
@@ -278,6 +279,8 @@ fn step<S: MdkStorageProvider>(w: &mut World<S>, l: &str, truth: &mut Truth, run
             if !truth.visited[m].contains(&info.state) || info.refs.iter().any(|p| !truth.offered[m].contains(p)) { truth.ahead.push((m, ev)); }
             if info.kind == "commit" && w.mls_epoch(m) > info.epoch + truth.retention { truth.beyond_retention = true; }
             if info.kind == "app" && w.mls_epoch(m) != info.epoch && !truth.offered[m].contains(&ev) { truth.late.insert((m, ev)); }
+            // first offered more than the exporter-secret look-back (5 epochs) after it was sent: unreadable by design
+            if info.kind == "app" && w.mls_epoch(m) > info.epoch + 5 && !truth.offered[m].contains(&ev) { truth.too_late.insert((m, ev)); }
             if info.kind == "prop" && w.mls_epoch(m) > info.epoch { truth.stale_proposal = true; }
             if info.kind == "commit" && truth.restarted.contains(&m) && w.mls_epoch(m) > info.epoch { truth.late_competitor_after_restart = true; }
             if info.kind == "commit" && info.author == m && info.epoch == w.mls_epoch(m) { if let Some(p) = w.pending_of(m) { if p != ev { truth.own_echo_other_pending = true; } } }
@@ -478,7 +481,10 @@ fn oracles<S: MdkStorageProvider>(run: &mut Run, w: &mut World<S>, seq: &mut Vec
                 let valid = entry.as_ref().map(|e| { let st = e.split(':').nth(1).unwrap_or(""); st == "1" || (st == "0" && false) }).unwrap_or(false);
                 if on_chain(info.state) && !valid {
                     let late = truth.ahead.iter().any(|(cc, e)| *cc == c && e == ev);
-                    let cls = if !class.is_empty() { class } else if late { "event-offered-ahead-of-its-predecessor-never-retried" } else if truth.late.contains(&(c, *ev)) { "message-filed-under-receivers-epoch" } else { "" };
+                    if truth.too_late.contains(&(c, *ev)) { continue; }
+                    // the known finding files a late message under the receiver's epoch (so a rollback invalidates it): the message
+                    // is THERE but invalid; a late message that is missing altogether is not that finding
+                    let cls = if !class.is_empty() { class } else if late { "event-offered-ahead-of-its-predecessor-never-retried" } else if truth.late.contains(&(c, *ev)) && entry.is_some() { "message-filed-under-receivers-epoch" } else { "" };
                     run.oracle_fail("C02", cls, format!("[{backend}] winning-branch message {msgno} (event {ev}, sent at state {}) is {} at member {c}", info.state, entry.clone().unwrap_or("missing".into())), seq.join(" || "));
                 }
                 if !on_chain(info.state) && entry.as_ref().map(|e| { let st = e.split(':').nth(1).unwrap_or(""); st == "1" || st == "0" }).unwrap_or(false) {
